@@ -117,9 +117,22 @@ type CallCase struct {
 	Chunk  int    `json:"chunk"`
 }
 
-var callProp = vh.Define("C12", "call", func(c CallCase, r *vh.R) {
+// run decodes once from the reader kind the case asks for and reports the position reached.
+func runCall(c CallCase) (outcome, int) {
+	if c.Chunk < 0 {
+		// a bytes.Reader: implements Len, ReadByte, WriteTo, Seek (what in-memory callers pass)
+		br := bytes.NewReader(c.Input)
+		got := call(cbor.NewDecoder(br), c.Method)
+		return got, len(c.Input) - br.Len()
+	}
 	rd := &posReader{b: c.Input, chunk: c.Chunk}
 	got := call(cbor.NewDecoder(rd), c.Method)
+	return got, rd.pos
+}
+
+var callProp = vh.Define("C12", "call", func(c CallCase, r *vh.R) {
+	got, pos := runCall(c)
+	rd := struct{ pos int }{pos}
 	ok, num, str, consumed, why := expected(c.Input, 0, c.Method)
 	if len(c.Input) > 0 {
 		r.Classf("major%d", c.Input[0]>>5)
@@ -256,7 +269,7 @@ func TestExhaustiveHeads(t *testing.T) {
 			}
 			for _, in := range inputs {
 				for _, m := range methods {
-					for _, chunk := range []int{0, 1} {
+					for _, chunk := range []int{0, 1, -1} {
 						if chunk == 1 && len(in) > 300 {
 							continue
 						}
@@ -269,7 +282,7 @@ func TestExhaustiveHeads(t *testing.T) {
 			}
 		}
 	}
-	vh.Exhaustive("call", fmt.Sprintf("every initial byte 0..255 x argument-byte patterns (boundaries of each width, truncated arguments) x content shorter/equal/longer than declared x ascii/invalid-UTF-8/multibyte content x 5 Decode methods x whole/1-byte reads: %d calls", n))
+	vh.Exhaustive("call", fmt.Sprintf("every initial byte 0..255 x argument-byte patterns (boundaries of each width, truncated arguments) x content shorter/equal/longer than declared x ascii/invalid-UTF-8/multibyte content x 5 Decode methods x plain reader (whole / 1-byte reads) and bytes.Reader: %d calls", n))
 }
 
 // ----------------------------------------------------------------------------- round trip
@@ -431,8 +444,16 @@ func (c StreamCase) bytes() []byte {
 
 var streamProp = vh.Define("C12", "stream", func(c StreamCase, r *vh.R) {
 	b := c.bytes()
-	rd := &posReader{b: b, chunk: c.Chunk}
-	dec := cbor.NewDecoder(rd)
+	var src io.Reader
+	pos := func() int { return 0 }
+	if c.Chunk < 0 {
+		br := bytes.NewReader(b)
+		src, pos = br, func() int { return len(b) - br.Len() }
+	} else {
+		pr := &posReader{b: b, chunk: c.Chunk}
+		src, pos = pr, func() int { return pr.pos }
+	}
+	dec := cbor.NewDecoder(src)
 	off := 0
 	okCalls := 0
 	var heldGot, heldWant [][]byte
@@ -456,8 +477,8 @@ var streamProp = vh.Define("C12", "stream", func(c StreamCase, r *vh.R) {
 			return
 		}
 		off += consumed
-		if rd.pos != off {
-			r.Failf("wrong-consumption", "after call %d reader at %d, items end at %d", i, rd.pos, off)
+		if pos() != off {
+			r.Failf("wrong-consumption", "after call %d reader at %d, items end at %d", i, pos(), off)
 			return
 		}
 		okCalls++
@@ -519,7 +540,7 @@ func TestPropStream(t *testing.T) {
 		if rapid.IntRange(0, 3).Draw(t, "extra") == 0 {
 			c.Calls = append(c.Calls, rapid.SampledFrom(methods).Draw(t, "extracall"))
 		}
-		c.Chunk = rapid.SampledFrom([]int{0, 0, 1, 3}).Draw(t, "chunk")
+		c.Chunk = rapid.SampledFrom([]int{0, 0, 1, 3, -1, -1}).Draw(t, "chunk")
 		if rapid.IntRange(0, 3).Draw(t, "docut") == 0 {
 			c.Cut = rapid.IntRange(1, 12).Draw(t, "cut")
 		}
